@@ -61,6 +61,9 @@ class GroupType(EntityType):
             raise TypeError("'allow_move_content must be a boolean.")
         self._allow_move_content = bool(allow)
 
+        if self.workspace:
+            self.workspace.update_attribute(self, "attributes")
+
     @property
     def allow_delete_content(self) -> bool:
         """
